@@ -41,6 +41,8 @@ def build(spec):
              el_n_units=int(rng.integers(50, 150)))
     if i % 4 == 3:
         o["district"] = True
+    if i % 7 == 5:  # the count is over (every expected unit reports, nothing left to model) and a stray unit shows up
+        o.update(feed_frac_reporting=1.0, feed_n_missing=0)
     el, feed, status, call = cases_mod.build(spec["seed"], PROPERTY, i, o)
     kinds_pool = ["known_county", "unknown_county"] + (["unknown_district"] if el.district else [])
     if i % 10 == 9:
